@@ -156,6 +156,9 @@ def install(pe):
     E[N + "isinf"] = lambda pe, a, k: isinstance(a[0], float)
     E[N + "isfinite"] = lambda pe, a, k: not isinstance(a[0], float)
     E[N + "geomspace"] = lambda pe, a, k: _geomspace(pe, a, k)
+    E[N + "isin"] = lambda pe, a, k: Arr.from_nested([any(pe.truth(pe.compare(ast.Eq(), x, y)) for y in (_asarr(pe, a[1]).flat())) for x in _asarr(pe, a[0]).flat()], "bool") \
+        if len(_asarr(pe, a[0]).shape) == 1 else elementwise(lambda x: any(pe.truth(pe.compare(ast.Eq(), x, y)) for y in _asarr(pe, a[1]).flat()), _asarr(pe, a[0]))
+    E[N + "in1d"] = E[N + "isin"]
     E[N + "sort"] = lambda pe, a, k: _npsort(pe, a[0])
     E[N + "argsort"] = lambda pe, a, k: _npargsort(pe, a[0])
     E[N + "digitize"] = lambda pe, a, k: _digitize(pe, a[0], a[1])
@@ -1081,5 +1084,14 @@ def _dc_fields(pe, o):
     out = []
     for name, (owner, default) in pe.all_fields(cls).items():
         ann = owner.fields()[name][0]
-        out.append(SimpleNamespace(name=name, type=ann, default=default))
+        typ = ann
+        hook = getattr(pe, "annotation_hook", None)
+        if hook is not None:   # the evaluated annotation (sa/typemodel.py), as dataclasses gives it at run time
+            typ = hook(pe, owner, name)
+        dflt = default
+        if default is None:
+            from .pe import ExtRef
+
+            dflt = ExtRef("dataclasses.MISSING")
+        out.append(SimpleNamespace(name=name, type=typ, default=dflt))
     return out
